@@ -60,7 +60,7 @@ let resolve (hist : (int * int) list) (s : string) : int =
     let j = int_of_string (String.sub s 1 (String.length s - 1)) in
     match List.nth_opt hist j with
     | Some (m, k) -> if s.[0] = 'm' then m else k
-    | None -> if s.[0] = 'm' then 60000 + j else 900000 + j   (* no such request: a value nothing uses *)
+    | None -> raise Not_found   (* no such request: the input is skipped *)
   end else int_of_string s
 
 let parse_in hist (s : string) : ex_cin =
@@ -82,14 +82,16 @@ let exc toks =
       let maxr = zi maxr in
       let c = ref (ex_cli_init (zi mid0) (zi tok0)) in
       let hist = ref [] in
-      let steps = List.map (fun s ->
-          let i = parse_in !hist s in
+      let steps = List.filter_map (fun s ->
+          match (try Some (parse_in !hist s) with Not_found -> None) with
+          | None -> None
+          | Some i ->
           let (c1, outs) = ex_cli_step maxr !c i in
           c := c1;
           (match i, outs with
            | ExSend _, [ExTx (ExReq (m, k, _))] -> hist := (int_of_z m, int_of_z k) :: !hist
            | _ -> ());
-          show_step (i, outs)) ins in
+          Some (show_step (i, outs))) ins in
       String.concat " | " steps
   | _ -> failwith "exc: arguments"
 
